@@ -541,7 +541,10 @@ EXTRA10 = {
         "statements for the whole piecewise-quadratic spline (both height forms), with an Example that the library defaults and five bins "
         "meet the hypotheses for any parameters; C03_cubic_whole_spline_change_of_variables - the same for the cubic spline's forward direction; "
         "C03_linear_ / C03_quadratic_ / C03_cubic_spline_flow_carries_the_base_mass - the unconstrained splines of the other three families "
-        "over a standard normal carry exactly the base mass of every [-A, A] beyond the tail bound, for all parameters. Flows whose linear layers keep their matrices are sampled first and integrated afterwards.",
+        "over a standard normal carry exactly the base mass of every [-A, A] beyond the tail bound, for all parameters; "
+        "C03_two_feature_rq_spline_flow_carries_the_product_mass and C03_two_feature_linear_and_cubic_spline_flow_carries_the_product_mass - "
+        "two features, one spline each with its own parameters, over StandardNormal([2]): the iterated integral of exp(log_prob) over the "
+        "square is the product of the base masses. Flows whose linear layers keep their matrices are sampled first and integrated afterwards.",
  "C04": "The fresh-twin comparison includes flows with random permutations, with and without context.",
  "C05": "The kernel density evaluator is integrated for 40-500 float32 samples centred far from the origin.",
  "C06": "12 and 20 features in float64: one pass per feature reproduces the input to 1e-12.",
@@ -555,6 +558,35 @@ EXTRA10 = {
  "C19": "Householder factors with short reflection vectors agree across precisions.",
  "C20": "Every tensor-returning utility hands out a fresh tensor.",
 }
+EXTRA11 = {
+ "C01": "Outputs and log-abs-det with gradients tracked must equal those under no_grad and with frozen parameters.",
+ "C02": "Sigmoid / Logit with temperatures away from one on image and vector items are in the catalogue.",
+ "C03": "CauchyCDF / CauchyCDFInverse constructed with a scale are among the atoms; a surplus is attributed to the recorded Logit clamp by "
+        "the same causal test as a deficit.",
+ "C04": "Flows whose QR / SVD / LU / naive layers keep their matrices and whose parameters moved are sampled and scored.",
+ "C05": "The MADE mixture with a large floor on its standard deviations: draws against the mean / standard deviation of exp(log_prob).",
+ "C06": "The float32 networks are checked once more under torch.autocast(cpu, bfloat16).",
+ "C07": "Identity features holding -0.0 and the smallest subnormal come back bit for bit.",
+ "C08": "The caller's list of parts is changed after construction.",
+ "C09": "float64 inputs next to tail bounds that are not float32 numbers.",
+ "C10": "64 to 128 features with determinants outside the floating-point range, either direction filling the cache.",
+ "C11": "Parameters moved through .data are part of the histories.",
+ "C13": "The training flags of every sub-module are part of the state compared around each call.",
+ "C14": "ActNorm with one feature / one channel runs the same histories.",
+ "C15": "NaiveLinear with its default orthogonal initialisation, 2 to 8 features.",
+ "C16": "Every flow is checked once more as a deep copy whose parameters then moved, against the original holding the copy's state dict.",
+ "C17": "Boxes whose output interval ends at exactly zero.",
+ "C18": "The argument contract must not depend on which values were rejected or accepted before.",
+ "C19": "float32 data clipped to tail bounds that float32 has to round. ADDED: single precision as a third instance of the operation "
+        "dictionary (Fops32: every arithmetic result rounded to the nearest binary32 number, Flocq) and C19_actnorm_forward_float32_error, "
+        "C19_actnorm_inverse_float32_error, C19_conditional_normal_sampler_float32_error, C19_spline_denormalisation_float32_error and "
+        "C19_batchnorm_forward_float32_error (six rounded operations incl. sqrt and division, by a relative-error calculus) - the regenerated formulas evaluated in "
+        "float32 differ from their exact values by at most u(2+u) times the size of the terms (u = 2^-24) when nothing is subnormal; the "
+        "dictionary is tied to the code by a bit-for-bit comparison of exact-rational evaluation with the float32 ActNorm and BatchNorm modules.",
+ "C20": "sum_except_batch on bool and integer tensors returns the exact row sums.",
+}
+for _pid, _t in EXTRA11.items():
+    CLAIMED[_pid]["text"] += " " + _t
 for _pid, _t in EXTRA10.items():
     CLAIMED[_pid]["text"] += " " + _t
 for _pid, _t in EXTRA9.items():
